@@ -41,6 +41,7 @@ type VerifC20Obs struct {
 	//   shared-line-object   a *Line returned by this Load was handed out by an earlier Load
 	//   fix-leaked           a fix through one view changed what another view shows
 	//   stale                this Load differs from a direct read of the file (compare Token)
+	//   bookkeeping:<what>   table and mapping of the real cache are out of step after this operation
 	Flags []string
 }
 
@@ -139,6 +140,34 @@ func verifC20Ino(p CurrPath) uint64 {
 var verifC20Known map[int]string
 var verifC20KnownDir string
 var verifC20ViewKeys []int
+
+// verifC20Bookkeeping evaluates C20_table_mapping_bijection and
+// C20_capacity_respected on the real cache; "" when they hold.
+func verifC20Bookkeeping(capacity int) string {
+	c := G.fileCache
+	if len(c.table) > capacity {
+		return "table-longer-than-capacity"
+	}
+	inTable := map[*fileCacheEntry]bool{}
+	for _, e := range c.table {
+		if inTable[e] {
+			return "entry-twice-in-table"
+		}
+		inTable[e] = true
+		if c.mapping[e.key] != e {
+			return "table-entry-not-in-mapping"
+		}
+	}
+	for k, e := range c.mapping {
+		if !inTable[e] {
+			return "mapping-entry-not-in-table"
+		}
+		if e.key != k {
+			return "mapping-key-differs-from-entry-key"
+		}
+	}
+	return ""
+}
 
 func verifC20Reset(capacity int, mode string) {
 	G = NewPkglint(io.Discard, io.Discard)
@@ -333,6 +362,9 @@ func VerifFileCacheScript(dir string, capacity int, mode string, files map[int]s
 		if stopped != "" {
 			result = append(result, VerifC20Obs{Token: stopped})
 			return
+		}
+		if bad := verifC20Bookkeeping(capacity); bad != "" {
+			obs.Flags = append(obs.Flags, "bookkeeping:"+bad)
 		}
 		result = append(result, obs)
 	}
